@@ -171,6 +171,14 @@ Proof.
   destruct (canon_acc NO P calcP [] a1) as [m|e]; cbn [bind]; [|discriminate]. intros _. exists m. reflexivity.
 Qed.
 
+(* calling calculate() again changes nothing *)
+Theorem composite_calculate_idempotent (xs : list cd) (st : store) :
+  Forall freshP xs -> Forall freshS xs -> calculate NO P xs = Ok st -> calculate NO P st = Ok st.
+Proof.
+  intros HfP HfS H. rewrite (batch_is_spec xs HfP HfS) in H.
+  pose proof (append_is_spec xs [] st) as A. rewrite !app_nil_r in A. rewrite A by assumption. exact H.
+Qed.
+
 (* no look-ahead for the composite: the result over a longer stream extends the result over a prefix *)
 Theorem spec2_prefix_stable (a b : list cd) r : spec2 (a ++ b) = Ok r ->
   exists mid tl, spec2 a = Ok mid /\ r = mid ++ tl.
